@@ -205,6 +205,13 @@ def o4(tier):
     return r
 
 
+def o5(tier):
+    from props import memobs
+    r = memobs.save_group_refusal(tier, 'O5', 'O5')
+    r.title = 'memory backend (shared with C08-O6): a pending-group record refused by the store (routing id taken by another group) leaves nothing behind -- ' + r.title[:160]
+    return r
+
+
 def run(tier, seed, only=None):
-    obs = [('O1', o1), ('O2', o2), ('O3', o3), ('O4', o4)]
+    obs = [('O1', o1), ('O2', o2), ('O3', o3), ('O4', o4), ('O5', o5)]
     return [f(tier) for k, f in obs if not only or k in only]
